@@ -257,15 +257,271 @@ Proof.
   assert (Hks : nonempty ks = true).
   { pose proof (F2_length _ _ _ F2) as Hlen. destruct l; [congruence|]. destruct ks; [discriminate|reflexivity]. }
   rewrite forallb_forall in Hl.
-  destruct e.
-  all: try (destruct t; try discriminate; cbn [list_conf] in Hc; apply andb_prop in Hc; destruct Hc as [Ht Hs];
-            apply String.eqb_eq in Ht; subst itag0; rewrite xvalid_list; cbn [no_text xtext andb]; rewrite Hks; cbn [andb];
-            apply (F2_forallb_valid _ _ _ _ F2); intros a k Hin Hak;
-            destruct (site_valid cs _ _ a itag k Hs (Hl _ Hin) Hak) as [Hkt Hkv]; rewrite Hkt, String.eqb_refl; exact Hkv).
-  (* WDisp *)
-  destruct t; try discriminate. cbn [list_conf] in Hc. rewrite xvalid_many. cbn [no_text xtext andb]. rewrite Hks. cbn [andb].
-  apply (F2_forallb_valid _ _ _ _ F2). intros a k Hin Hak. exact (disp_valid cs d choice a itag k Hc (Hl _ Hin) Hak).
+  assert (Hcase : (exists d ch, e = WDisp d /\ t = XMany ch /\ disp_ok W XS XT cs d ch = true) \/
+                  (exists it, t = XList itag it /\ site_conf W XS XT cs e it = true)).
+  { destruct e; destruct t; try discriminate Hc; cbn [list_conf] in Hc;
+      try (left; do 2 eexists; repeat split; exact Hc);
+      right; apply andb_prop in Hc; destruct Hc as [Ht Hs]; apply String.eqb_eq in Ht; subst; eauto. }
+  destruct Hcase as [[d [ch [-> [-> Hd]]]]|[it [-> Hs]]].
+  - rewrite xvalid_many. cbn [no_text xtext andb]. rewrite Hks. cbn [andb].
+    apply (F2_forallb_valid _ _ _ _ F2). intros a k Hin Hak. exact (disp_valid cs d ch a itag k Hd (Hl _ Hin) Hak).
+  - rewrite xvalid_list. cbn [no_text xtext andb]. rewrite Hks. cbn [andb].
+    apply (F2_forallb_valid _ _ _ _ F2). intros a k Hin Hak.
+    destruct (site_valid cs _ _ a itag k Hs (Hl _ Hin) Hak) as [Hkt Hkv]. rewrite Hkt, String.eqb_refl. exact Hkv.
+Qed.
+
+Lemma xvalid_enum lits x : SH (XEnum lits) x = no_kids x && smem (text_of x) lits.
+Proof. destruct x; reflexivity. Qed.
+Lemma xvalid_leaf t x : (match t with XStr _ | XBool | XB64 => True | _ => False end) -> SH t x = no_kids x.
+Proof. destruct x; destruct t; intros H; try destruct H; cbn; now rewrite andb_true_r. Qed.
+
+Lemma site_none cs : forall e t tag x, site_conf W XS XT cs e t = true -> enc_c W rec e tag VNone = Ok x -> False.
+Proof.
+  induction e as [| | | | | | |fn|d|item IHi itag|inner IHin itag]; intros t tag x Hc He; try discriminate.
+  - cbn [enc_c] in He. destruct n; cbn in He; discriminate.
+  - cbn [enc_c] in He. destruct (enc_c W rec inner itag VNone) as [k| |] eqn:Ek; try discriminate.
+    destruct t as [f| | |lits|g|it0 item0|ch0|ch]; try (destruct inner; discriminate).
+    assert (Hc' : match parts_of XS g with
+                    | Some [p] => String.eqb (x_tag p) itag && site_conf W XS XT cs inner (x_ty p)
+                    | _ => false end = true).
+      { destruct inner; exact Hc. }
+      destruct (parts_of XS g) as [[|p [|]]|]; try discriminate.
+      apply andb_prop in Hc'. destruct Hc' as [_ Hs]. exact (IHin _ _ _ Hs Ek).
+Qed.
+
+Lemma level_seq (f : string * string -> string) : forall (tb : table) parts,
+  (fix go (tb : table) (parts : list xpart) : bool :=
+     match tb, parts with
+     | [], [] => true
+     | kv :: tb', p :: parts' =>
+       String.eqb (snd kv) (x_tag p) && match x_ty p with XBool => true | _ => false end && go tb' parts'
+     | _, _ => false
+     end) tb parts = true ->
+  xseq leaf_any XS (map (fun kv => text_elem (snd kv) (f kv)) tb) parts = true.
+Proof.
+  induction tb as [|kv tb IHt]; intros [|p parts] H; try discriminate; [reflexivity|].
+  apply andb_prop in H. destruct H as [H H3]. apply andb_prop in H. destruct H as [H1 H2].
+  apply String.eqb_eq in H1. cbn [map xseq]. rewrite text_elem_tag. cbn [drop_until]. rewrite <- H1, String.eqb_refl.
+  rewrite (IHt parts H3). destruct (x_ty p) eqn:Et; try discriminate. rewrite andb_true_r.
+  rewrite xvalid_leaf; [reflexivity|exact I].
+Qed.
+
+(* the value of one attribute *)
+Lemma enc_valid cls fs k e t v tag x :
+  enc_conf W XS XT cls k e t = true ->
+  match k with KClass => v = VEnum cls | _ => fits (wfb M n) fs k v = true end ->
+  (needs_items t = true -> v <> VList []) ->
+  enc_c W rec e tag v = Ok x -> xtag x = tag /\ SH t x = true.
+Proof.
+  intros Hc Hf Hne He. destruct k as [opt| |ms opt|tattr|ty|  |cs opt|cs ne|ms| ].
+  - (* KStr *)
+    destruct e; try discriminate; destruct t; try discriminate. cbn in He. destruct v; try discriminate.
+    injection He as <-. split; [apply text_elem_tag|]. rewrite xvalid_leaf; [reflexivity|exact I].
+  - (* KBool *)
+    destruct e; try discriminate; destruct t; try discriminate. cbn in He. destruct v; try discriminate.
+    injection He as <-. split; [apply text_elem_tag|]. rewrite xvalid_leaf; [reflexivity|exact I].
+  - (* KEnum *)
+    destruct e; try discriminate; destruct t; try discriminate. cbn [enc_conf] in Hc. cbn in He.
+    destruct v; try discriminate. cbn in Hf. destruct opt; apply smem_In in Hf;
+      rewrite forallb_forall in Hc; specialize (Hc _ Hf);
+      (destruct (chain (wt_enum W) tbls m) as [s|]; [|discriminate]); injection He as <-;
+      (split; [apply text_elem_tag|]); rewrite xvalid_enum, text_elem_text; exact Hc.
+  - (* KXsd *)
+    destruct e; try discriminate; destruct t; try discriminate. cbn in He. destruct v; try discriminate.
+    injection He as <-. split; [apply text_elem_tag|]. rewrite xvalid_leaf; [reflexivity|exact I].
+  - (* KXsdFixed *)
+    destruct e; try discriminate; destruct t; try discriminate. cbn in He. destruct v; try discriminate.
+    injection He as <-. split; [apply text_elem_tag|]. rewrite xvalid_leaf; [reflexivity|exact I].
+  - (* KBytes *)
+    destruct e; try discriminate; destruct t; try discriminate; cbn in He; destruct v; try discriminate;
+      injection He as <-; (split; [reflexivity|]); rewrite xvalid_leaf; try reflexivity; exact I.
+  - (* KObj *)
+    cbn [enc_conf] in Hc. destruct v; try discriminate Hf.
+    + exfalso. exact (site_none cs e t tag x Hc He).
+    + cbn [fits] in Hf. exact (site_valid cs e t _ tag x Hc Hf He).
+  - (* KList *)
+    cbn [enc_conf] in Hc. destruct v; try discriminate Hf. cbn [fits] in Hf. apply andb_prop in Hf. destruct Hf as [Hl _].
+    apply (list_valid cs e t l tag x Hc Hl); [|exact He].
+    intros ->. apply Hne; [|reflexivity]. destruct e; try discriminate. destruct e; destruct t; try discriminate Hc; reflexivity.
+  - (* KLevel *)
+    destruct e; try discriminate; destruct t; try discriminate. cbn [enc_conf] in Hc. cbn in He.
+    destruct v; try discriminate. unfold level_conf in Hc.
+    destruct (sfind tbl (wt_enum W)) as [tb|]; [|discriminate]. injection He as <-. split; [reflexivity|].
+    unfold parts_of in Hc. rewrite xvalid_cls. destruct (sfind cls0 (xs_classes XS)) as [parts|]; [|discriminate].
+    cbn [no_text xtext andb]. apply level_seq. exact Hc.
+  - (* KClass *)
+    destruct e; try discriminate; destruct t; try discriminate. cbn [enc_conf] in Hc. subst v. cbn in He.
+    destruct (chain (wt_enum W) tbls cls) as [s|]; [|discriminate]. injection He as <-.
+    split; [apply text_elem_tag|]. rewrite xvalid_enum, text_elem_text. exact Hc.
+Qed.
+
+(* conditions *)
+Lemma always_emits_sound fs k c v cls :
+  always_emits k c = true ->
+  match k with KClass => v = VEnum cls | _ => fits (wfb M n) fs k v = true end ->
+  drops fl c v = false.
+Proof.
+  destruct c; cbn [always_emits]; try discriminate; intros Hk Hf; cbn [drops].
+  - reflexivity.
+  - (* WTruthy *)
+    destruct k as [[|]| |ms [|]|tattr|ty|  |cs [|]|cs [|]|ms| ]; try discriminate Hk;
+      destruct v; try discriminate Hf; cbn [falsy]; try reflexivity.
+    + cbn in Hf. destruct (String.eqb s ""); [discriminate|reflexivity].
+    + cbn in Hf. apply andb_prop in Hf. destruct Hf as [_ Hf]. destruct l; [discriminate|reflexivity].
+  - (* WNotNone *)
+    destruct k as [[|]| |ms [|]|tattr|ty|  |cs [|]|cs ne|ms| ]; try discriminate Hk;
+      destruct v; try discriminate Hf; reflexivity.
+Qed.
+
+Lemma cond_nonempty_sound c v : cond_nonempty c = true -> drops fl c v = false -> v <> VList [].
+Proof. intros Hc Hd ->. destruct c; try discriminate; cbn in Hd; discriminate. Qed.
+
+Lemma fits_lookup wf fs0 a : forall attrs fs k,
+  fits_all wf fs0 attrs fs = true -> sfind a attrs = Some k ->
+  exists v, sfind a fs = Some v /\ fits wf fs0 k v = true.
+Proof.
+  induction attrs as [|[a' k'] attrs IHa]; intros [|[a'' v] fs] k H Hs; try discriminate.
+  cbn in H. apply andb_prop in H. destruct H as [H H3]. apply andb_prop in H. destruct H as [H1 H2].
+  apply String.eqb_eq in H1. subst a''. cbn [sfind] in *. destruct (String.eqb a a').
+  - injection Hs as <-. eauto.
+  - exact (IHa fs k H3 Hs).
+Qed.
+
+(* one rule against the part of the sequence it is aligned with *)
+Lemma rule_valid c fs attrs r k p ks :
+  fits_all (wfb M n) fs attrs fs = true -> kind_of attrs (w_attr r) = Some k ->
+  w_inline r = false ->
+  (x_opt p || always_emits k (w_cond r)) = true ->
+  (negb (needs_items (x_ty p)) || cond_nonempty (w_cond r) || kind_nonempty k) = true ->
+  enc_conf W XS XT c k (w_enc r) (x_ty p) = true ->
+  enc_rule fl W rec c fs r = Ok ks ->
+  (ks = [] /\ x_opt p = true) \/ (exists x, ks = [x] /\ xtag x = w_tag r /\ SH (x_ty p) x = true).
+Proof.
+  intros Hfa Hk Hin Hem Hni Hec He. unfold enc_rule in He.
+  assert (Hfield : exists v, field c fs (w_attr r) = Some v /\
+                             match k with KClass => v = VEnum c | _ => fits (wfb M n) fs k v = true end).
+  { unfold kind_of in Hk. unfold field. destruct (String.eqb (w_attr r) class_attr).
+    - injection Hk as <-. eauto.
+    - destruct (fits_lookup _ _ _ _ _ _ Hfa Hk) as [v [H1 H2]]. exists v. split; [exact H1|].
+      destruct k; try exact H2. destruct v; discriminate. }
+  destruct Hfield as [v [Hfv Hfit]]. rewrite Hfv in He.
+  destruct (drops fl (w_cond r) v) eqn:Ed.
+  - injection He as <-. left. split; [reflexivity|].
+    apply orb_prop in Hem. destruct Hem as [Ho|Ha]; [exact Ho|].
+    rewrite (always_emits_sound fs k _ v c Ha Hfit) in Ed. discriminate.
+  - rewrite Hin in He. destruct (enc_c W rec (w_enc r) (w_tag r) v) as [x| |] eqn:Ex; try discriminate.
+    cbn [bind] in He. injection He as <-. right. exists x. split; [reflexivity|].
+    apply (enc_valid c fs k (w_enc r) (x_ty p) v (w_tag r) x Hec Hfit); [|exact Ex].
+    intros Hn. rewrite Hn in Hni. cbn [negb orb] in Hni. apply orb_prop in Hni. destruct Hni as [Hc|Hkn].
+    + exact (cond_nonempty_sound _ _ Hc Ed).
+    + destruct k; try discriminate.
+      * (* KObj: the value is an object or None, never a list *)
+        destruct v; try discriminate Hfit; discriminate.
+      * cbn in Hkn. subst nonempty. destruct v; try discriminate Hfit. cbn in Hfit.
+        apply andb_prop in Hfit. destruct Hfit as [_ Hf]. destruct l; [discriminate Hf|discriminate].
+Qed.
+
+Lemma align_valid c fs attrs : forall rules parts kss,
+  fits_all (wfb M n) fs attrs fs = true ->
+  NoDup (map x_tag parts) ->
+  align W XS XT c attrs rules parts = true ->
+  Forall2 (fun r ks => enc_rule fl W rec c fs r = Ok ks) rules kss ->
+  xseq leaf_any XS (List.concat kss) parts = true.
+Proof.
+  induction rules as [|r rules IHr]; intros parts kss Hfa Hnd Hal F2; inversion F2 as [|? ks ? kss' Hr Hrs]; subst.
+  - exact Hal.
+  - cbn [align] in Hal. apply andb_prop in Hal. destruct Hal as [Hinl Hal]. apply negb_true_iff in Hinl.
+    destruct (kind_of attrs (w_attr r)) as [k|] eqn:Ek; [|discriminate].
+    destruct (drop_until (w_tag r) parts) as [[p rest]|] eqn:Ed; [|discriminate].
+    apply andb_prop in Hal. destruct Hal as [Hal Hrest]. apply andb_prop in Hal. destruct Hal as [Hal Henc].
+    apply andb_prop in Hal. destruct Hal as [Hem Hni].
+    destruct (drop_until_split _ _ _ _ Ed) as [pre [-> [Htag [Hpre Hnin]]]].
+    pose proof (IHr rest kss' Hfa (NoDup_suffix _ _ _ ltac:(rewrite map_app in Hnd; exact Hnd)) Hrest Hrs) as Hseq.
+    cbn [List.concat].
+    destruct (rule_valid c fs attrs r k p ks Hfa Ek Hinl Hem Hni Henc Hr) as [[-> Hopt]|[x [-> [Hxt Hxv]]]].
+    + cbn [app]. apply xseq_skip; assumption.
+    + cbn [app xseq]. rewrite Hxt, Ed, Hxv. exact Hseq.
 Qed.
 
 End Step.
+
+(* ---------- main theorem ---------- *)
+Theorem xwrite_shape : forall n, OBJ n.
+Proof.
+  induction n as [|n IHn]; intros fn c tgt v tag x Hm Hc Hwf He; [discriminate|].
+  split; [exact (enc_obj_tag _ _ _ _ _ _ _ He)|].
+  pose proof (xt_ok _ Hm) as Hok. unfold xtriple_ok in Hok.
+  destruct v as [| | | | | | |c' fs]; try discriminate. cbn [cls_of] in Hc. subst c'.
+  cbn [wfb] in Hwf. destruct (sfind c M) as [attrs|]; [|discriminate].
+  cbn [enc_obj] in He. unfold wrules_of in Hok.
+  destruct (sfind fn (wt_rules W)) as [byc|]; [|discriminate].
+  destruct (sfind c byc) as [rules|]; [|discriminate].
+  destruct (map_res (enc_rule fl W (enc_obj fl W n) c fs) rules) as [kss| |] eqn:Em; try discriminate.
+  cbn [bind] in He. injection He as <-. pose proof (map_res_F2 _ _ _ Em) as F2.
+  destruct tgt as [g|itag g]; cbn [target_valid].
+  - unfold parts_of in Hok. rewrite xvalid_cls. destruct (sfind g (xs_classes XS)) as [parts|]; [|discriminate].
+    apply andb_prop in Hok. destruct Hok as [Hnd Hal]. apply nodup_tags_NoDup in Hnd.
+    cbn [no_text xtext andb]. exact (align_valid n IHn c fs attrs rules parts kss Hwf Hnd Hal F2).
+  - destruct rules as [|r [|]]; try discriminate. destruct attrs as [|[a k] [|]]; try discriminate; try (destruct k as [| | | | | | |? [|]| |]; discriminate Hok).
+    destruct k as [| | | | | | |cs [|]| |]; try discriminate.
+    inversion F2 as [|? ks ? kss' Hr Hrs]; subst. inversion Hrs; subst. cbn [List.concat]. rewrite app_nil_r.
+    apply andb_prop in Hok. destruct Hok as [Hok Henc]. apply andb_prop in Hok. destruct Hok as [Hok Hcond].
+    apply andb_prop in Hok. destruct Hok as [Hok Hncls]. apply andb_prop in Hok. destruct Hok as [Hinl Hattr].
+    apply String.eqb_eq in Hattr. apply negb_true_iff in Hncls.
+    unfold enc_rule in Hr. unfold field in Hr. rewrite Hattr, Hncls in Hr.
+    destruct fs as [|[a' v] fsr]; [discriminate Hwf|]. cbn [fits_all] in Hwf.
+    apply andb_prop in Hwf. destruct Hwf as [Hwf Hnil]. apply andb_prop in Hwf. destruct Hwf as [Ha Hfit].
+    apply String.eqb_eq in Ha. subst a'. cbn [sfind] in Hr. rewrite String.eqb_refl in Hr.
+    destruct (w_cond r); try discriminate. cbn [drops] in Hr. rewrite Hinl in Hr.
+    destruct (w_enc r) as [| | | | | | | | |item itag'|]; try discriminate. destruct item; try discriminate.
+    apply andb_prop in Henc. destruct Henc as [Hit Hall]. apply String.eqb_eq in Hit. subst itag'.
+    destruct v; try discriminate. cbn [fits] in Hfit. apply andb_prop in Hfit. destruct Hfit as [Hl Hnel].
+    pose proof (map_res_F2 _ _ _ Hr) as F2'.
+    rewrite xvalid_list. cbn [no_text xtext andb].
+    assert (Hks : nonempty ks = true).
+    { pose proof (F2_length _ _ _ F2') as Hlen. cbn in Hnel. destruct l; [discriminate|]. destruct ks; [discriminate|reflexivity]. }
+    rewrite Hks. cbn [andb]. apply (F2_forallb_valid _ _ _ _ F2'). intros y k Hin Hyk.
+    rewrite forallb_forall in Hl. destruct (obj_in_inv n cs y (Hl _ Hin)) as [c' [fs' [-> [Hc' Hwf']]]].
+    apply smem_In in Hc'. rewrite forallb_forall in Hall. cbn [enc_c] in Hyk.
+    destruct (IHn fn0 c' (TCls g) (VObj c' fs') itag k (Hall _ Hc') eq_refl Hwf' Hyk) as [Hkt Hkv].
+    rewrite Hkt, String.eqb_refl. exact Hkv.
+Qed.
+
+(* ---------- the environment document (object_store_to_xml_element) ---------- *)
+Lemma xwrite_env root tops n objs x :
+  xenv_ok XS XT root tops = true ->
+  (forall v, In v objs -> wfb M n v = true) ->
+  write_store fl W tops n objs = Ok x ->
+  SH (XCls root) x = true.
+Proof.
+  unfold xenv_ok, write_store. intros Hok Hwf He.
+  destruct (map_res _ tops) as [kss| |] eqn:Em; try discriminate. cbn [bind] in He. injection He as <-.
+  unfold parts_of in Hok. rewrite xvalid_cls. destruct (sfind root (xs_classes XS)) as [parts|]; [|discriminate].
+  apply andb_prop in Hok. destruct Hok as [Hnd Hal]. apply nodup_tags_NoDup in Hnd.
+  cbn [no_text xtext andb]. pose proof (map_res_F2 _ _ _ Em) as F2. clear Em.
+  revert parts kss Hnd Hal F2. induction tops as [|t tops IHt]; intros parts kss Hnd Hal F2;
+    inversion F2 as [|? ks ? kss' Ht Hts]; subst.
+  - exact Hal.
+  - cbn [tops_align] in Hal. destruct (drop_until (tl_list t) parts) as [[p rest]|] eqn:Ed; [|discriminate].
+    apply andb_prop in Hal. destruct Hal as [Hal Hrest]. apply andb_prop in Hal. destruct Hal as [Hopt Hty].
+    destruct (drop_until_split _ _ _ _ Ed) as [pre [-> [Htag [Hpre Hnin]]]].
+    pose proof (IHt rest kss' (NoDup_suffix _ _ _ ltac:(rewrite map_app in Hnd; exact Hnd)) Hrest Hts) as Hseq.
+    cbn [List.concat].
+    destruct (filter (fun v => String.eqb (cls_of v) (tl_cls t)) objs) as [|v0 mine] eqn:Ef.
+    + injection Ht as <-. cbn [app]. apply xseq_skip; assumption.
+    + destruct (map_res (enc_obj fl W n (tl_fn t) (tl_item t)) (v0 :: mine)) as [ks'| |] eqn:Emi; try discriminate.
+      cbn [bind] in Ht. injection Ht as <-. cbn [app xseq xtag]. rewrite Ed.
+      destruct (x_ty p) as [f| | |lits|g0|itag it|ch0|ch]; try discriminate. destruct it as [f| | |lits|g|itag' it'|ch0|ch]; try discriminate.
+      apply andb_prop in Hty. destruct Hty as [Hit Hmem]. apply String.eqb_eq in Hit. subst itag.
+      rewrite Hseq, andb_true_r. rewrite xvalid_list. cbn [no_text xtext andb].
+      pose proof (map_res_F2 _ _ _ Emi) as F2'.
+      assert (Hks : nonempty ks' = true).
+      { pose proof (F2_length _ _ _ F2') as Hlen. destruct ks'; [discriminate|reflexivity]. }
+      rewrite Hks. cbn [andb]. apply (F2_forallb_valid _ _ _ _ F2'). intros v k Hin Hvk.
+      assert (Hvf : In v (filter (fun v => String.eqb (cls_of v) (tl_cls t)) objs)) by now rewrite Ef.
+      apply filter_In in Hvf. destruct Hvf as [Hvo Hvc]. apply String.eqb_eq in Hvc.
+      destruct (xwrite_shape n (tl_fn t) (tl_cls t) (TCls g) v (tl_item t) k Hmem Hvc (Hwf _ Hvo) Hvk) as [Hkt Hkv].
+      rewrite Hkt, String.eqb_refl. exact Hkv.
+Qed.
+
 End XW.
